@@ -184,6 +184,113 @@ def gen_l2(ctx, hp, workdir_token):
     return cases
 
 
+def gen_sete_family(ctx, hp, count):
+    """flat scripts combining `set -e` (at every position of the main script), function definitions and calls before
+    and after it, `source` of files (which may define functions and call them) and a failing command at top level /
+    inside a function / inside a sourced file.  Returns dicts(files, items) ; the reference is ref_sete."""
+    rng = ctx.rng
+    out = []
+    for _ in range(count):
+        k = [0]
+
+        def ext(p_fail):
+            k[0] += 1
+            st = rng.choice([1, 3, 7]) if rng.random() < p_fail else 0
+            return ("ext", st, "m%d" % k[0])
+        nfun = rng.randint(0, 3)
+        funs = []
+        for i in range(nfun):
+            body = []
+            for _ in range(rng.randint(1, 3)):
+                if i > 0 and rng.random() < 0.3:
+                    body.append(("call", "f%d" % rng.randrange(i)))
+                else:
+                    body.append(ext(0.25))
+            funs.append(("f%d" % i, rng.choice(["function f%d {", "function f%d() {", "function f%d ()  {"]) % i, body))
+        libs = []
+        for j in range(rng.randint(0, 2)):
+            items = []
+            if rng.random() < 0.5:
+                items.append(("def", "g%d" % j, [ext(0.2)]))
+            for _ in range(rng.randint(1, 3)):
+                r = rng.random()
+                if r < 0.25 and nfun:
+                    items.append(("call", "f%d" % rng.randrange(nfun)))
+                elif r < 0.4 and items and items[0][0] == "def":
+                    items.append(("call", "g%d" % j))
+                else:
+                    items.append(ext(0.2))
+            libs.append(("lib%d.sh" % j, items))
+        main = []
+        for _ in range(rng.randint(3, 7)):
+            r = rng.random()
+            if r < 0.3 and nfun:
+                main.append(("call", "f%d" % rng.randrange(nfun)))
+            elif r < 0.45 and libs:
+                main.append(("source", rng.randrange(len(libs))))
+            else:
+                main.append(ext(0.3))
+        if rng.random() < 0.85:
+            main.insert(rng.randint(0, len(main)), ("sete",))
+        out.append(dict(funs=funs, libs=libs, main=main))
+    return out
+
+
+def render_sete(c, hp):
+    def line(it):
+        if it[0] == "ext":
+            return "%s @x%d %s" % (hp, it[1], it[2])
+        if it[0] == "call":
+            return it[1]
+        if it[0] == "source":
+            return "source lib%d.sh" % it[1]
+        if it[0] == "sete":
+            return "set -e"
+        if it[0] == "def":
+            return "function %s {\n%s\n}" % (it[1], "\n".join(line(x) for x in it[2]))
+    files = {}
+    for name, items in c["libs"]:
+        files[name] = "\n".join(line(x) for x in items) + "\n"
+    t = ""
+    for name, head, body in c["funs"]:
+        t += head + "\n" + "\n".join("  " + line(x) for x in body) + "\n}\n"
+    t += "\n".join(line(x) for x in c["main"]) + "\n"
+    files["main.sh"] = t
+    return files
+
+
+class _Stop(Exception):
+    pass
+
+
+def ref_sete(c):
+    """the property: after `set -e` the first failing command -- at top level, in a function body or in a sourced
+    file -- ends the script with its status; otherwise the status is that of the last command executed."""
+    st = {"eoe": False, "trace": [], "last": 0, "funcs": {n: b for n, _, b in c["funs"]}}
+
+    def run(items):
+        for it in items:
+            if it[0] == "ext":
+                st["trace"].append(["@x%d" % it[1], it[2]])
+                st["last"] = it[1]
+                if it[1] != 0 and st["eoe"]:
+                    raise _Stop()
+            elif it[0] == "sete":
+                st["eoe"] = True
+                st["last"] = 0
+            elif it[0] == "def":
+                st["funcs"][it[1]] = it[2]
+            elif it[0] == "call":
+                run(st["funcs"][it[1]])
+            elif it[0] == "source":
+                run(c["libs"][it[1]][1])
+    try:
+        run(c["main"])
+    except _Stop:
+        pass
+    return st["trace"], st["last"]
+
+
 def run(ctx, res):
     rng = ctx.rng
     known = {k["class"]: k for k in C.known_findings("C15")}
@@ -289,6 +396,57 @@ def run(ctx, res):
                                 expected="trace=%r status=%r" % (exp_t, exp_rc), observed="trace=%r status=%r" % (log, rc),
                                 stderr=err[-400:], failing_input=True,
                                 note="script arguments / functions / source / exit status do not behave as the property states")
+        # ---------------- L2b: set -e x functions x source (model = extracted Model/ShellScript.v)
+        fam = gen_sete_family(ctx, hp, 600 if ctx.thorough else 120)
+        ffiles = [render_sete(c, hp) for c in fam]
+        mlines = []
+        for ff in ffiles:
+            flds = ["shrun", C.enc("main.sh")]
+            for nm, tx in sorted(ff.items()):
+                flds += [C.enc(nm), C.enc(tx)]
+            mlines.append("\t".join(flds))
+        mo_s = C.run_model(ctx.model["C15"], C.write_cases("c15_shrun.txt", mlines))
+
+        def one_s(ix):
+            d = os.path.join(work, "s%d" % ix)
+            os.makedirs(d)
+            rc, log, err = run_script(ctx.cicada, ffiles[ix], "main.sh", [], d)
+            shutil.rmtree(d, ignore_errors=True)
+            return rc, log, err
+        with ThreadPoolExecutor(max_workers=C.NCPU) as ex:
+            souts = list(ex.map(one_s, range(len(fam))))
+        res.count("L2b_sete_function_source_runs", len(fam))
+        nviol = 0
+        for ix, (rc, log, err) in enumerate(souts):
+            c = fam[ix]
+            ptrace, pst = ref_sete(c)
+            obs = "trace=[%s] status=%s" % (";".join(",".join(a) for a in log), rc)
+            prop = "trace=[%s] status=%s" % (";".join(",".join(a) for a in ptrace), pst)
+            model = mo_s[ix]
+            res.nontrivial("l2b:" + prop[:200])
+            has_sete_then_source = False
+            seen = False
+            for it in c["main"]:
+                if it[0] == "sete":
+                    seen = True
+                if it[0] == "source" and seen:
+                    has_sete_then_source = True
+            if obs == prop:
+                if model != obs and has_sete_then_source:
+                    fl = res.extra.setdefault("findings_no_longer_reproduced", [])
+                    if "sete-cleared-by-source" not in fl:
+                        fl.append("sete-cleared-by-source")
+                continue
+            cls = "sete-cleared-by-source"
+            if obs == model and has_sete_then_source and cls in known:
+                res.known(cls, "class=%s input=%s what=%s" % (cls, json.dumps(ffiles[ix])[:500], known[cls].get("what", "")))
+                continue
+            nviol += 1
+            if nviol <= 3:
+                res.violate(kind="oracle", layer="L2b", entry="script", files=ffiles[ix], expected=prop, observed=obs, model=model,
+                            stderr=err[-300:], failing_input=True,
+                            note="set -e / function call / source: the script does not end at the first failing command with "
+                                 "its status (or runs a different command sequence)")
         c, rc, log, err = outs[0]
         res.sample({"layer": "L2", "tag": c["tag"], "script": c["files"][c["main"]], "args": c["args"],
                     "reference": repr(c["expect"]), "impl": "trace=%r status=%r" % (log, rc)})
